@@ -883,6 +883,21 @@ def run_c10(chk):
                    "//a/@*", "//a/attribute::*", "//namespace::p", "//a/namespace::p", "count(//a | //@x)", "//a[@id]/attribute::id",
                    "//p:a/child::b", "//self::a", "//b/parent::a", "//descendant-or-self::a/attribute::n", "name(//attribute::id)"]
     qs_df = [(t, rng.choice(["=urn:u1;p=urn:u1;q=urn:u2", "=urn:u2;p=urn:u1;q=urn:u2"]), DEF_BATTERY) for t, _, _ in qs]
+    # scoping, systematically: a default namespace, undeclared with xmlns="" further in, declared again below that, with
+    # unprefixed and prefixed elements and attributes at every level; prefixes re-declared and shadowed the same way
+    SCOPE_DOCS = [
+        "<r xmlns='urn:u1'><a><x xmlns=''><y><a/></y><z xmlns='urn:u2'><w xmlns=''><a id='1'/></w><a/></z></x><a/></a></r>",
+        "<r xmlns='urn:u2' xmlns:p='urn:u1'><p:a><b xmlns=''><p:a x='1'><b/></p:a></b><b/></p:a><m xmlns:p='urn:u2'><p:a><a xmlns=''/></p:a></m></r>",
+        "<r><a xmlns='urn:u1'><a xmlns=''><a xmlns='urn:u1'><a xmlns=''/></a></a></a></r>",
+        "<p:r xmlns:p='urn:u1' xmlns='urn:u1'><a p:x='1' x='2'><p:a xmlns:p='urn:u2' p:x='3'><a xmlns='' p:x='4'/></p:a></a></p:r>",
+    ]
+    SCOPE_Q = ["//a", "//b", "//p:a", "//q:a", "//*[namespace-uri()='']", "//*[namespace-uri()='urn:u1']", "//*[namespace-uri()='urn:u2']",
+               "count(//*[not(namespace-uri())])", "//y/a", "//w/a", "//z/a", "//x//a", "//@p:x", "//@q:x", "//@x", "//*[@p:x]", "//a/a/a/a",
+               "namespace-uri((//*)[last()])", "namespace-uri((//*)[last()-1])", "namespace-uri(//*[@id])", "name(//*[@id]/..)",
+               "count(//*[local-name()='a'][namespace-uri()='urn:u1'])", "//child::a", "//self::a", "//descendant::a[1]"]
+    for sd in SCOPE_DOCS:
+        for bnd in ("=urn:u1;p=urn:u1;q=urn:u2", "=urn:u2;p=urn:u1;q=urn:u2", XP.BINDINGS, "=urn:u1;p=urn:u2;q=urn:u1"):
+            qs_df.append((sd, bnd, SCOPE_Q))
     impl_df, spec_df = XP.run_queries("qfresh", qs_df, quirks="")
     spec = lib.run_lines(lib.model_driver(), [lib.req("queryq", "", t, b, *es) for t, b, es in qs], timeout=900)
     findings = {f["id"]: f for f in lib.load_findings("C10") if f["kind"] == "known"}
